@@ -7,6 +7,13 @@ import subprocess
 ROOT = os.path.dirname(os.path.dirname(os.path.abspath(__file__)))
 
 CHECKS = {
+    "C16": ("fault_enumeration",
+            "exhaustive fault injection: ConductorAbort raised at every executed line of Conductor code for every deviation-0 schedule of each scenario, under the virtual kernel",
+            "For each scenario and completion order the run is repeated once per line event (~3-5k points) with the abort raised at that "
+            "line, as a Python signal handler would; the kernel's process table at the injection point decides which groups must receive "
+            "SIGTERM; exit status/message and index rows are checked.",
+            "Trusted: line granularity (arrival inside a C call surfaces at the next line); one signal per run; finalizer frames excluded.",
+            "DESIGN.md §4 C16, §2 E5"),
     "C08": ("model_checking",
             "exhaustive exploration of all command histories up to a depth over {run outcomes, SIGINT, restores, gc} x clock steps, each transition the real command on the real directory state",
             "All histories of depth <=3 (4) over 8 commands x 3 clock steps are executed; freshness invariants are evaluated at every "
